@@ -187,9 +187,9 @@ func parseServerHeader(p []byte) (w, seq, total int, ok bool) {
 }
 
 const (
-	flagEcho = 1
-	flagHold = 2
-	flagGo   = 4 // start the server-side writers from this message callback
+	flagEcho  = 1
+	flagHold  = 2
+	flagGo    = 4 // start the server-side writers from this message callback
 	flagPanic = 8 // the message callback panics at its end
 )
 
